@@ -92,6 +92,35 @@ forward("search", db_c._search, LPt, dict(query=Q, sorted=TBool), dict(sorted=la
 forward("remove", db_c._remove, TInt, dict(query=Q))
 
 
+def _select_view(c):
+    """Measurement.select(keys, query) seen as TinyFlux.select(select_keys=keys, query, measurement=self._name)"""
+    return _View(c, {"select_keys": c.keys})
+
+
+def _mk_select():
+    from . import select_c
+
+    dbcon = select_c._select
+
+    @contract(_M + "select")
+    class _m_select(Contract):
+        params = dict(self=MS, keys=select_c.KeysArg, query=Q)
+        ret = select_c.LRow
+        modifies = ("_db",)
+        theories = dbcon.theories
+        raises = wrap_raises(dbcon, _select_view)
+        witness_sig = dbcon.witness_sig
+        witness = staticmethod(lambda c: c.ex.last_call_witnesses)
+        requires = staticmethod(lambda c: dbcon.requires(_select_view(c)))
+        ghost_defs = staticmethod(lambda c: dbcon.ghost_defs(_select_view(c)))
+        ensures = staticmethod(lambda c: dbcon.ensures(_select_view(c)))
+
+    return _m_select
+
+
+_m_select = _mk_select()
+
+
 @contract(_M + "remove_all")
 class _m_remove_all(Contract):
     params = dict(self=MS)
